@@ -14,6 +14,10 @@ Definition fadd (a b : frac) := fraction (fnum a * fden b + fnum b * fden a) (fd
 Definition fsub (a b : frac) := fraction (fnum a * fden b - fnum b * fden a) (fden a * fden b).
 Definition fmul (a b : frac) := fraction (fnum a * fnum b) (fden a * fden b).
 Definition fdiv (a b : frac) := fraction (fnum a * fden b) (fden a * fnum b).
+(* pow(Fraction, int): a negative exponent inverts (zero base: the error of a zero denominator); the result is normalised *)
+Definition fpow (a : frac) (b : Z) : res frac :=
+  if andb (b =? 0) (fnum a =? 0) then Err "cannot raise zero to a zero power" else     (* the integer 0 ** 0 is an error *)
+  if 0 <=? b then fraction (fnum a ^ b) (fden a ^ b) else fraction (fden a ^ (- b)) (fnum a ^ (- b)).
 Definition fneg (a : frac) : frac := mkf (- fnum a) (fden a).
 Definition fcmp (a b : frac) : Z := fnum a * fden b - fnum b * fden a.
 Definition feq (a b : frac) : bool := (fnum a =? fnum b) && (fden a =? fden b).
